@@ -236,7 +236,11 @@ def main():
     if errs:
         print(errs[0], file=sys.stderr)
         print(f"machinery error in {len(errs)} shard(s)", file=sys.stderr)
-        sys.exit(2)
+        # A harness that breaks on a tree on which other shards do find violations is most likely broken *by* that tree
+        # (state kept between explored executions, values the reference cannot format ...): the violations are reported and
+        # decide the exit status. Without any violation the run is a failure of the machinery.
+        if not any(sig not in known for sig in merged.viol):
+            sys.exit(2)
     extra = {}
     if hasattr(mod, "finish"):
         extra = mod.finish(merged, tier) or {}
